@@ -588,10 +588,76 @@ def forms_case(ctx, rng, idx):
                        'observations': obs}, feats)
 
 
+def forms_composed_case(ctx, rng, idx):
+    """composed models: the same whole-numbered parameters / individual
+    parameters as float64, integer-typed, read-only, strided or Fortran-
+    ordered arrays give the same log-likelihood, individual parameters and
+    sensitivities in all three return forms (the float64 evaluation itself
+    is compared with the reference by the other families)"""
+    n_ids = int(rng.integers(1, 6))
+    leaves = GP.random_composition(rng, n_ids, max_parts=4, max_dim=3,
+                                   p_cov=0.0, kinds='GLTP')
+    if len(leaves) == 1:
+        leaves.append(GP.make_leaf('G', 1, True, 0, None, n_ids))
+    codes = [GP.leaf_code(l) for l in leaves]
+    form = FM.pick(rng, ['readonly', 'strided', 'fortran', 'int64', 'int32'])
+    feats = {'leaves': codes, 'n_ids': n_ids, 'input_form': form}
+    ctx.case(('forms_composed', '+'.join(codes), form), True, sample=feats)
+    model = GP.build_chi(leaves, n_ids, force_composed=True)
+    model.set_n_ids(n_ids)
+    thetas, cols = [], []
+    for l in leaves:
+        th = FM.intify(4 * GP.leaf_top(rng, l, n_ids))
+        if l.kind in 'GLT':
+            th[l.n_dim:] = np.abs(th[l.n_dim:])
+            ob = FM.intify(4 * GP.leaf_bottom(rng, l, n_ids))
+        else:
+            ob = np.broadcast_to(th[None, :], (n_ids, l.n_dim)).copy()
+        thetas.append(th)
+        cols.append(ob)
+    theta = np.concatenate(thetas)
+    obs = np.hstack(cols)
+    c = np.round(3 * rng.normal(size=obs.shape))
+    tv, ov, cv = (FM.variant(a, form) for a in (theta, obs, c))
+    if tv is None:
+        tv = theta.copy()       # 1-D vector: no Fortran variant
+    if ov is None or cv is None:
+        ctx.reject('form not applicable')
+        return
+
+    def run(t, o, cc):
+        return (model.compute_log_likelihood(t, o),
+                np.asarray(model.compute_individual_parameters(t, o),
+                           dtype=float)) + tuple(
+            np.asarray(a, dtype=float) for kw in (
+                dict(reduce=False, flattened=False),
+                dict(reduce=False, flattened=True), dict(reduce=True))
+            for a in model.compute_sensitivities(t, o, dlogp_dpsi=cc, **kw))
+    try:
+        base = run(theta.copy(), obs.copy(), c.copy())
+        got = run(tv, ov, cv)
+    except Exception as e:      # noqa
+        ctx.violation_exc('evaluation_raises', e, {'case': feats}, feats)
+        return
+    ctx.count('input_forms_compared')
+    if not np.isfinite(base[0]):
+        return
+    for k, (a, b) in enumerate(zip(got, base)):
+        if not FM.same(a, b, 1e-10):
+            ctx.violation('same_numbers_same_result',
+                          'input_form:composed:%s:%d' % (form, k),
+                          {'result_index': k, 'float64': b, form: a,
+                           'parameters': theta, 'observations': obs},
+                          feats)
+            return
+
+
 FAMILIES = [
     Family('leaf', leaf_case, quick=4200, thorough=84000),
     Family('composed', composed_case, quick=1500, thorough=30000),
     Family('support', support_case, quick=300, thorough=3000),
     Family('pointmass', pointmass_case, quick=768, thorough=7680),
     Family('forms', forms_case, quick=1470, thorough=14700),
+    Family('forms_composed', forms_composed_case, quick=800,
+           thorough=8000),
 ]
